@@ -33,10 +33,14 @@ OutVerdict(rec, k) ==
         allow == nss \ refuse
         R(v, env, ns) == [k |-> k, v |-> v, env |-> env, ns |-> ns, np |-> 0]
     IN IF out.r = "unser" \/ ~InFragment(rec.e) THEN R("SKIP", 0, "")
-       ELSE IF refuse # {} /\ ~IsRefusal(out)
+       ELSE IF refuse # {} /\ ~IsRefusalOf(rec.e, out)
             THEN R(IF out.r = "err" THEN "raised" ELSE "not-refused", 0, Pick(refuse))
        ELSE IF allow = {} THEN R("REFUSED", 0, "")
+       \* (round 4) an input with a foreign node kind: a refusal is accepted, a tree is judged against
+       \* the meaning of the input, and a tree for an input that denotes nothing is "not-refused"
+       ELSE IF Foreign(rec.e) /\ IsRefusalOf(rec.e, out) THEN R("REFUSED", 0, "")
        ELSE IF out.r = "err" THEN R(IF NowhereDefined(rec.e, rec.v) THEN "SKIP" ELSE "raised", 0, Pick(allow))
+       ELSE IF Foreign(rec.e) /\ NowhereDefined(rec.e, rec.v) THEN R("not-refused", 0, Pick(allow))
        ELSE LET j == JudgeTree(rec.e, rec.v, out.e) IN [R(j.v, j.env, Pick(allow)) EXCEPT !.np = j.np]
 
 \* Python's own evaluation of the returned tree against Eval (a check of the oracle's mirror,
